@@ -163,7 +163,7 @@ def run_c20(rep, tier, seed):
     rng = random.Random(seed * 1000 + 20)
     nw = 30 if tier == "quick" else 300
     per = 14 if tier == "quick" else 10**6
-    root = os.path.join(WORK, "run-C20")
+    root = os.path.join(RUNS, "run-C20")
     corpus = [
         # D10: create fails on rollover; D11: second write of a > 8 KiB entry fails; D12: fault in merge
         (Hist("c0", "cfg mfs=40 sync=none frag=0/1 dead=0 small=1099511627776 cache=256 pool=1", [P(b"a", b"1" * 30), P(b"b", b"2" * 30), P(b"c", b"3")]), dict(keys=[b"a", b"b", b"c"], mfs=40, sync="none")),
